@@ -243,7 +243,11 @@ temporary_stack_initializer::temporary_stack_initializer(std::size_t initial_siz
 temporary_stack_initializer::~temporary_stack_initializer() noexcept
 {
     if (is_created)
+    {
         get().~temporary_stack();
+        // the next initializer or get_temporary_stack() call of this thread creates it again
+        is_created = false;
+    }
 }
 
 temporary_stack& foonathan::memory::get_temporary_stack(std::size_t initial_size)
